@@ -52,21 +52,24 @@ Variable digits_ub : Z -> Z.
 Ltac destr_split :=
   repeat match goal with |- context [split_digits ?B ?a ?b] => destruct (split_digits B a b) end.
 
-Theorem large_small_gen_eq p m s1 e1 s2 e2 sg :
+(** the exponent gap is isize::abs_diff in the code: |e1 - e2|, with the sign the caller guarantees *)
+Theorem large_small_gen_eq p m s1 e1 s2 e2 sg : e2 <= e1 ->
   large_small_gen B digits_ub p m s1 e1 s2 e2 sg =
   bind_approx (repr_add_large_small_fix B digits_ub p m s1 e1 s2 e2 sg) (norm_approx B).
 Proof.
-  unfold large_small_gen, repr_add_large_small_fix, far_low_prec. cbv zeta.
+  intros He. unfold large_small_gen, repr_add_large_small_fix, far_low_prec. cbv zeta.
+  rewrite ?(Z.abs_eq (e1 - e2)) by lia.
   destr_if; destr_split; rewrite ?rrs_gen_eq; try reflexivity;
     cbn [sgnz]; rewrite ?Z.mul_1_l; try reflexivity;
     replace (-1 * s2) with (- s2) by ring; reflexivity.
 Qed.
 
-Theorem small_large_gen_eq p m s1 e1 s2 e2 sg :
+Theorem small_large_gen_eq p m s1 e1 s2 e2 sg : e1 <= e2 ->
   small_large_gen B digits_ub p m s1 e1 s2 e2 sg =
   bind_approx (repr_add_small_large_fix B digits_ub p m s1 e1 s2 e2 sg) (norm_approx B).
 Proof.
-  unfold small_large_gen, repr_add_small_large_fix, far_low_prec. cbv zeta.
+  intros He. unfold small_large_gen, repr_add_small_large_fix, far_low_prec. cbv zeta.
+  rewrite ?(Z.abs_eq (e2 - e1)) by lia.
   destr_if; destr_split; rewrite ?rrs_gen_eq; try reflexivity;
     cbn [sgnz]; rewrite ?Z.mul_1_l; try reflexivity;
     replace (-1 * s2) with (- s2) by ring; reflexivity.
@@ -77,7 +80,7 @@ Theorem ctx_add_gen_eq p m s1 e1 s2 e2 :
 Proof.
   unfold ctx_add_gen, ctx_add_fix_n, add_dispatch_fix_n. cbv zeta. cbn [sgnz]. rewrite Z.mul_1_l.
   destruct (s1 =? 0); [reflexivity|]. destruct (s2 =? 0); [reflexivity|].
-  destruct (e1 ?= e2); [destr_norm; reflexivity | apply small_large_gen_eq | apply large_small_gen_eq].
+  destruct (Z.compare_spec e1 e2); [destr_norm; reflexivity | apply small_large_gen_eq; lia | apply large_small_gen_eq; lia].
 Qed.
 
 Theorem ctx_sub_gen_eq p m s1 e1 s2 e2 :
@@ -86,7 +89,7 @@ Proof.
   unfold ctx_sub_gen, ctx_sub_fix_n, add_dispatch_fix_n. cbv zeta. cbn [sgnz].
   replace (-1 * s2) with (- s2) by ring. change (s1 + - s2) with (s1 - s2).
   destruct (s1 =? 0); [reflexivity|]. destruct (s2 =? 0); [reflexivity|].
-  destruct (e1 ?= e2); [destr_norm; reflexivity | apply small_large_gen_eq | apply large_small_gen_eq].
+  destruct (Z.compare_spec e1 e2); [destr_norm; reflexivity | apply small_large_gen_eq; lia | apply large_small_gen_eq; lia].
 Qed.
 
 (* ------------------------------------------------------------------ mul.rs *)
@@ -175,9 +178,13 @@ Proof.
     destruct Hse as [-> ->]. rewrite (normalize_id B B_ge_2 ns ne N). reflexivity.
 Qed.
 
+(** (digits ^ exponent) & 1 is the parity of digits + exponent *)
+Lemma lxor_parity a b : Z.lxor a b mod 2 = (a + b) mod 2.
+Proof. rewrite <- !Z.bit0_mod. rewrite Z.lxor_spec, Z.add_bit0. reflexivity. Qed.
+
 Theorem ctx_sqrt_gen_eq p m s e : ctx_sqrt_gen B p m s e = ctx_sqrt_n B p m s e.
 Proof.
-  unfold ctx_sqrt_gen, ctx_sqrt_n, ctx_sqrt. cbv zeta.
+  unfold ctx_sqrt_gen, ctx_sqrt_n, ctx_sqrt. cbv zeta. rewrite ?lxor_parity.
   destruct (p =? 0); [reflexivity|].
   unfold sign_of. destruct (s <? 0); cbn [sign_eqb]; [reflexivity|].
   cbn [map_approx]. f_equal.
